@@ -451,6 +451,19 @@ def zip_alignment(ctx, rule, f, what):
             if fname in ('filter',) and len(e.args) == 2 and isinstance(e.args[1], ast.Name):
                 return (e.args[1].id, 'subset')
             if fname in ('list', 'tuple', 'sorted', 'map', 'run_in_executor', 'submit', 'to_thread') or names:
+                # a nested function run element-wise over a list of the enclosing scope (`for x in xs: out.append(g(x))`)
+                nested = {d.name: d for d in ast.walk(f.node) if isinstance(d, (ast.FunctionDef, ast.AsyncFunctionDef)) and d is not f.node}
+                for a_ in names:
+                    d = nested.get(a_.id)
+                    if d is not None:
+                        loops = [l for l in ast.walk(d) if isinstance(l, (ast.For, ast.AsyncFor)) and isinstance(l.iter, ast.Name) and any(isinstance(c_, ast.Call) and isinstance(c_.func, ast.Attribute) and c_.func.attr == 'append' for c_ in ast.walk(l))]
+                        params = {x.arg for x in d.args.posonlyargs + d.args.args + d.args.kwonlyargs}
+                        if len(loops) == 1 and loops[0].iter.id not in params:
+                            return (loops[0].iter.id, 'map')
+                        if len(loops) == 1 and loops[0].iter.id in params:
+                            others = [x for x in names if x.id not in nested]
+                            if others:
+                                return (others[-1].id, 'map')
                 if names:
                     return (names[-1].id, 'map')
         if isinstance(e, ast.BinOp) and isinstance(e.op, ast.Mult):
